@@ -440,6 +440,13 @@ func execTyped(c *fw.Ctx, cs c15Case, abstract *xmltree.Node) {
 	case sp.Shape == "raw-container" && root.Space == sp.Space && root.Local == sp.Local:
 		if kids := root.Elems(); len(kids) > 0 {
 			r.checkMarshal("marshal-in-container", "typed "+sp.Name, direct, syntheticRoot(root.Space, root.Local, kids))
+			// ... and the value obtained through the raw value: its nested raw
+			// values were captured a second time, from the replayed tokens,
+			// and must still write out the same tree.
+			if errR == nil {
+				r.c.Observe("marshal_outcome", "marshal-in-container: value decoded via a raw value written out", 1)
+				r.checkMarshal("marshal-in-container", "typed "+sp.Name+" (decoded via the raw value)", viaRaw, syntheticRoot(root.Space, root.Local, kids))
+			}
 		}
 	case sp.Shape == "struct":
 		want := map[string]*xmltree.Node{}
